@@ -172,6 +172,8 @@ class EndpointMonitor:
         self.pay, self.par = ep_signals(ep)
         self.check_stability = check_stability
         self.log = []            # (cycle, first, last, pay tuple, par tuple)
+        self.offered_at = []
+        self.offer_start = None
         self.prev = None
         self.stab_viol = []
         self.stalled_cycles = 0
@@ -201,8 +203,12 @@ class EndpointMonitor:
                 if a != b:
                     self.stab_viol.append({"cycle": c, "kind": "token-changed-while-stalled",
                                            "was": self.prev, "now": tok})
+        if valid and (self.offer_start is None or (self.prev is not None and tok != self.prev)):
+            self.offer_start = c                            # a new offer: valid rose, or the offered token was replaced
         if valid and ready:
             self.log.append((c,) + tok)
+            self.offered_at.append(self.offer_start)       # cycle in which this token's valid rose (same index as log)
+            self.offer_start = None
             self.last_hs_cycle = c
             self.prev = None
         elif valid:
@@ -210,6 +216,7 @@ class EndpointMonitor:
             self.stalled_cycles += 1
         else:
             self.prev = None
+            self.offer_start = None
             self.idle_cycles += 1
         return None
 
